@@ -13,7 +13,7 @@
 (* tag when AddSpaceWhenStrippingTag is on) and t = "raw" (script/style    *)
 (* body written unescaped under AllowUnsafe).                              *)
 (***************************************************************************)
-EXTENDS BM_Attrs
+EXTENDS BM_AttrProps
 
 VoidEls == {"area", "base", "br", "col", "embed", "frame", "hr", "img", "input",
             "keygen", "link", "meta", "param", "source", "track", "wbr"}
